@@ -83,10 +83,17 @@ where
     /// are nested too deeply to be anything but circular.
     fn enter_type_resolution(&self, span: Span) -> Option<TypeResolutionGuard<'_>> {
         let depth = self.type_resolution_depth.get();
+        if depth == 0 {
+            self.type_resolution_gave_up.set(false);
+        } else if self.type_resolution_gave_up.get() {
+            // already reported for this resolution
+            return None;
+        }
         if depth >= MAX_TYPE_RESOLUTION_DEPTH {
             HANDLER.with(|handler| {
                 handler.span_err(span, "Type is circular or nested too deeply to be resolved.");
             });
+            self.type_resolution_gave_up.set(true);
             None
         } else {
             self.type_resolution_depth.set(depth + 1);
